@@ -166,11 +166,50 @@ class SpecDB:
             return self.eval_stmts(eng, rest, s, f)
         raise Unsupported(f"spec {f.name}: statement {type(st0).__name__}")
 
+    def relevant_definition_axioms(self, eng, formulas):
+        """Only the @specfn definitions whose symbol occurs in the VC (closed under the symbols their bodies use):
+        dropping axioms can only make a proof harder, never unsound, and keeps unrelated triggers out."""
+        allax = self.definition_axioms_named(eng)
+        if not allax:
+            return []
+        names = set()
+
+        def syms(t, acc, seen):
+            if t.get_id() in seen:
+                return
+            seen.add(t.get_id())
+            if z3.is_quantifier(t):
+                syms(t.body(), acc, seen)
+                return
+            if z3.is_app(t):
+                if t.decl().kind() == z3.Z3_OP_UNINTERPRETED:
+                    acc.add(t.decl().name())
+                for ch in t.children():
+                    syms(ch, acc, seen)
+        seen = set()
+        for f in formulas:
+            syms(f, names, seen)
+        chosen, frontier = {}, set(names)
+        while frontier:
+            n = frontier.pop()
+            if n in allax and n not in chosen:
+                chosen[n] = allax[n]
+                extra = set()
+                syms(allax[n], extra, set())
+                frontier |= (extra - set(chosen))
+        return list(chosen.values())
+
+    def definition_axioms_named(self, eng):
+        if getattr(self, "_defax_named", None) is None:
+            self.definition_axioms(eng)
+        return self._defax_named
+
     def definition_axioms(self, eng):
         """Quantified definitions (trigger: the application) of the non-recursive @specfn functions."""
         if getattr(self, "_defax", None) is not None:
             return self._defax
         out = []
+        self._defax_named = {}
         for f in self.funcs.values():
             if f.specfn and not f.recursive and not f.opaque:
                 vars_ = [z3.Const(f"{f.name}_{n}", sort_of(ty)) for n, ty in f.params]
@@ -178,7 +217,9 @@ class SpecDB:
                 argvals = [from_term(v, ty) for v, (_, ty) in zip(vars_, f.params)]
                 val = self.body_value(eng, f, argvals)
                 rhs = to_term(eng, State(), val, f.ret)
-                out.append(z3.ForAll(vars_, app == rhs, patterns=[app]))
+                ax = z3.ForAll(vars_, app == rhs, patterns=[app])
+                out.append(ax)
+                self._defax_named[self.decl(f).name()] = ax
         self._defax = out
         return out
 
